@@ -568,13 +568,17 @@ def check_C04(tier, seed):
         for r in p.rules():
             if r["kind"] == "inf":
                 r["menu"] = [F.D(False, -1, 1)]
+    # contexts in rule sets other than Init, entered by switches (menus kept as drawn)
+    progs += F.random_general(seed + 5, sizes(tier, 30, 300), 30000, k=k - 1, nsets=(2, 2, 3), nrules=(1, 2, 3),
+                              p_ctx=0.5, p_eoi=0.1, menu_sizes=(1, 1, 2), p_fal=0.1, p_sugar=0.2)
     return generic_replay_check(
         "C04", tier, progs, proj_c04,
         "a rule with a right context matched/was skipped wrongly, or the context was consumed",
         "programs: seeded random definitions in which about half of the rules carry a right context "
         "(literals, sets, repetition, `$`, nullable contexts) in any priority position, plus "
         "families.arm_family with contexts (context-guarded class rules in front of overlapping "
-        "per-character / range / `_` rules that leave the same state); "
+        "per-character / range / `_` rules that leave the same state) and definitions with 2-3 rule "
+        "sets whose rules switch, continue and carry contexts; "
         + INPUTS_RULE + "compared: (rule, lexeme span, next character seen by the action) of every "
         "action and token up to the first InvalidToken",
         artifact="a right-context automaton or a context-guarded accepting state is wrong")
@@ -1131,13 +1135,20 @@ def check_C14(tier, seed):
     n, k = sizes(tier, (40, 3), (400, 4))
     progs = (F.random_general(seed, n, 100, k=k, nsets=(1, 2, 2), nrules=(1, 2, 3, 4), p_ctx=0.2,
                               p_eoi=0.2, menu_sizes=(1, 2), p_fal=0.2, sigma=(F.A, F.B, F.C, 233, 28450))
-             + F.fixed_mm(5000)[:6] + F.builtin_family(7000, k=k))
+             + F.fixed_mm(5000)[:6] + F.builtin_family(7000, k=k)
+             # rewinds over multi-byte / wide characters, newlines and tabs
+             + F.join_templates(seed + 3, max(6, n // 3), 9000, k=k + 1, letters=(97, 10, 233, 28450),
+                                sigma=(97, 10, 9, 233, 28450), p_eoi=0.2, nsets=(1, 2))
+             + F.random_general(seed + 4, max(6, n // 3), 11000, k=k, nsets=(1, 2), nrules=(2, 3, 4), p_ctx=0.2,
+                                menu_sizes=(1, 2), p_fal=0.2, letters=(97, 10, 233, 28450),
+                                sigma=(97, 10, 9, 233, 28450)))
     byid = {p.id: p for p in progs}
     fr = replay_family("C14", progs, ctors=(0, 1, 2, 3), workers=8 if tier == "quick" else 14,
                        tlc_timeout=700 if tier == "quick" else 3300)
     out.coverage = base_coverage(
         fr, "programs: seeded random definitions (rewinding rules, contexts, `$`, several rule "
-            "sets, multi-byte characters in the alphabet); every behaviour of RefLexer.tla for all "
+            "sets, multi-byte characters in the alphabet, and definitions whose letters are a, newline, "
+            "e-acute and a CJK character so that lexers rewind over them); every behaviour of RefLexer.tla for all "
             "inputs <= k is replayed through new, new_with_state, new_from_iter and "
             "new_from_iter_with_state (iterator: a cloneable iterator over shared storage); the "
             "four recorded streams (without match_() text) must be identical; then random inputs "
@@ -1426,6 +1437,12 @@ def guard_size_family(seed, base_id):
                 rules = [F.simple_rule(chr_(120), ctx=cls), F.simple_rule(chr_(120)), F.simple_rule(any_())]
                 sig, k = sorted(pts | {120}), 2
             out.append(Program(base_id + len(out), [("Init", rules)], sigma=sig, k=k, named=False))
+        # the same class in two rule sets (one table per use, or one shared table)
+        sig = sorted(rnd.sample(sorted(pts), min(len(pts), 12)) + [120])
+        out.append(Program(base_id + len(out), [
+            ("Init", [F.inf_rule(cls, menu=[F.D(False, 1, 1)]), F.simple_rule(any_())]),
+            ("S1", [F.inf_rule(cat(cls, chr_(120)), menu=[F.D(False, 0, 1)]), F.simple_rule(cls), F.simple_rule(any_())])],
+            sigma=sig, k=3))
     return [p for p in out if p.well_formed()]
 
 
